@@ -616,12 +616,12 @@ def run(rep, tier):
     rep.rule("R-BAND-KEEP", "a Banded storage descriptor built from an operand's (ml, mu) keeps ml as ml and mu as mu (directly or through an inlined Matrix constructor)")
     r_band_keep(rep, f)
     r_macro_witness(rep, f)
-    rep.rule("R-MAT-DENSE", "for every storage combination of square matrices up to n = 3 (thorough: 5) - Identity, Full, Banded(ml, mu) for all bandwidth pairs - add, sub, their assigning forms, "
+    rep.rule("R-MAT-DENSE", "for every storage combination of square matrices up to n = 3 (thorough: 8, i.e. every size the property names) - Identity, Full, Banded(ml, mu) for all bandwidth pairs - add, sub, their assigning forms, "
                             "component_add/sub/mul(_mut) with a generic scalar and with 0, every constructor, is_identity, in-band element writes and rejected writes agree entrywise with the dense model "
                             "and keep the representation invariant: polynomial identities in the stored numbers (exact evaluation with concrete shapes, engine/cxs.py)")
     import matx
-    nmax = 5 if tier == "thorough" else 3
-    matx.r_mat_dense(rep, f, nmax)
+    nmax = 8 if tier == "thorough" else 3      # the property's sizes 1..8 are all enumerated in the thorough tier
+    matx.r_mat_dense(rep, f, nmax, jobs=14 if tier == "thorough" else 1)
     matx.r_mat_write_guard(rep, f, min(nmax, 4))
     rep.explanation = ("Structural: representation invariants of every constructor / operator result (symbolic lengths), agreement of the read and write index maps, divergence of illegal writes, "
                        "and compile witnesses for the macro constructors. R-MAT-DENSE decides entrywise equality of every operator with the dense model for all data and every storage shape up to the stated size (sizes beyond it are not enumerated).")
